@@ -28,7 +28,7 @@ def pruningPitch : Rat := 3/20
 def erosionUsesDifference : Bool := true
 
 /-- pruning.py pruneContainment: the `while eroded_container is None` loop -/
-def erodeLoop : RetryCfg := { passesCurrentPitch := false, stopsAtMaxPitch := false }
+def erodeLoop : RetryCfg := { passesCurrentPitch := true, stopsAtMaxPitch := true }
 
 /-- pruning.py pruneVisibility.bufferHelper: `buffer_quantity = obj.radius + maxDistance` -/
 def visibilityBufferIsSum : Bool := true
@@ -43,6 +43,6 @@ def erodeCount : ErodeCountCfg := { hypotDims := 3, minus := 1, usesTargetPitch 
 def erodeNegates : Bool := true
 
 /-- regions.py _bufferOverapproximate: `math.ceil(minBuffer / p) + k` -/
-def dilateCount : DilateCountCfg := { plus := 1, usesTargetPitch := false }
+def dilateCount : DilateCountCfg := { plus := 1, usesTargetPitch := true }
 
 end Scenic.Gen
